@@ -234,9 +234,14 @@ def _num(x):
 
 def snapshot(s, fr):
     d, r, c = _reported(s)
-    xs, ys = _probe_points(d, r, fr)
-    vals = [_call(s, x) for x in xs] + [_call(s.scale, xs[2])]
-    inv = [_call(s.invert, y) for y in ys]
+    try:
+        xs, ys = _probe_points(d, r, fr)
+        vals = [_call(s, x) for x in xs] + [_call(s.scale, xs[2])]
+        inv = [_call(s.invert, y) for y in ys]
+    except (TypeError, ValueError, IndexError) as e:
+        # the scale reports something that is not a pair of numbers (only
+        # reachable after a rejected call); check_scale() will judge it
+        return ["reported_state_not_numeric", repr(d)[:80], repr(r)[:80], c]
     return canon(_num([d, r, c, vals, inv]))
 
 
@@ -512,7 +517,8 @@ def _run(plan):
                         break
             last_snap = snaps if v is None else last_snap
             touched = set()
-            mags = [abs(x) for sc in pool for x in list(sc.domain()) + list(sc.range()) if x]
+            mags = [abs(x) for sc in pool for x in list(sc.domain()) + list(sc.range())
+                    if x and isinstance(x, (int, float))]
             if mags and min(mags) < 1e-4:
                 stats["probe:magnitude_tiny"] = 1
             if mags and max(mags) > 1e7:
